@@ -19,6 +19,13 @@ Proof. repeat split; reflexivity. Qed.
 Lemma threshold_param : value_tojson_u64_threshold = i64_max.
 Proof. reflexivity. Qed.
 
+Lemma serde_roundtrip_param : value_serde_float_roundtrip = true.
+Proof. reflexivity. Qed.
+
+(** with the float_roundtrip reader a finite float survives the WAL line unchanged (fix 32b7370) *)
+Lemma wal_float_exact : forall b, f64_is_finite b = true -> wal_float b = SFloat b.
+Proof. intros b H. unfold wal_float. rewrite serde_roundtrip_param, H. reflexivity. Qed.
+
 Lemma varbytes_no_null_bitmap : value_varbytes_has_nulls = false.
 Proof. reflexivity. Qed.
 
@@ -179,8 +186,7 @@ Qed.
 (** the classes, spelled over the physical type *)
 Lemma known_false : forall t l cp v, known t l cp v = false ->
   in_class Utf8ReparsedOnRender t l cp v = false /\ in_class StringRetyped t l cp v = false /\
-  in_class NullStringBecomesEmpty t l cp v = false /\ in_class IntegerInFloatFieldRounded t l cp v = false /\
-  in_class FloatWalReparsedInexact t l cp v = false.
+  in_class NullStringBecomesEmpty t l cp v = false /\ in_class IntegerInFloatFieldRounded t l cp v = false.
 Proof.
   intros t l cp v H. unfold known, all_classes in H. cbn [existsb] in H.
   repeat (apply orb_false_iff in H; destruct H as [? H]). repeat split; assumption.
@@ -198,7 +204,7 @@ Lemma roundtrip_value : forall t w seg j,
 Proof.
   intros t w seg j Hd Ha Hwf Hn l Hk.
   pose proof (conforming_compat t j Hd Ha Hn) as Hc.
-  destruct (known_false _ _ _ _ Hk) as (K1 & K2 & K3 & K4 & K5).
+  destruct (known_false _ _ _ _ Hk) as (K1 & K2 & K3 & K4).
   unfold returned. subst l.
   assert (Hmem : forall s, (if w then wal_scalar s else s) = s \/ exists b, s = SFloat b).
   { intros s. destruct w; [|left; reflexivity]. destruct s; try (left; reflexivity). right. eexists. reflexivity. }
@@ -283,8 +289,7 @@ Proof.
   - (* F64 column, float value *)
     cbn [wf_json] in Hwf. assert (Hf : f64_is_finite bits = true) by (unfold i64_max, i64_min, u64_max in *; lia).
     assert (Ew : (if w then wal_scalar (SFloat bits) else SFloat bits) = SFloat bits).
-    { destruct w; [|reflexivity]. cbn [in_class via_wal andb] in K5. unfold float_wal_inexact in K5.
-      apply negb_false_iff, scalar_eqb_eq in K5. exact K5. }
+    { destruct w; [|reflexivity]. cbn [wal_scalar]. apply wal_float_exact, Hf. }
     destruct seg as [k|].
     + rewrite tier_scalar_seg, Hp. cbn [mem_scalar scalar_of_json]. rewrite Ew, rt_f64_float.
       unfold f64_cell_scalar. rewrite Hf. cbn [json_of_scalar]. rewrite Hf. cbn [json_eqb]. lia.
@@ -305,7 +310,7 @@ Lemma roundtrip_null : forall t l cp v,
   (v = Some JNull \/ v = None) -> known t l cp v = false ->
   returned t l cp v = JNull.
 Proof.
-  intros t [w seg] cp v Hv Hk. destruct (known_false _ _ _ _ Hk) as (_ & _ & K3 & _ & _).
+  intros t [w seg] cp v Hv Hk. destruct (known_false _ _ _ _ Hk) as (_ & _ & K3 & _).
   assert (Em : mem_scalar v = SNull) by (destruct Hv; subst v; reflexivity).
   unfold returned, tier_scalar. cbn [via_wal in_seg]. rewrite Em.
   replace (if w then wal_scalar SNull else SNull) with SNull by (destruct w; reflexivity).
@@ -344,14 +349,20 @@ Definition fails (k : known_class) (t : ftype) (l : layout) (cp : bool) (v : sto
   definable t = true /\ conforming t v = true /\ col_consistent cp v = true /\
   in_class k t l cp v = true /\ json_eqb (returned t l cp v) (expected v) = false.
 
-(** "[1]" ; "123" ; null ; 9007199254740993 ; 446.19296929045356 *)
+(** "[1]" ; "123" ; null ; 9007199254740993 *)
 Theorem roundtrip_refuted :
   fails Utf8ReparsedOnRender TStr L_mem true (Some (JStr [91; 49; 93]%N)) /\
   fails StringRetyped TStr L_seg true (Some (JStr [49; 50; 51]%N)) /\
   fails NullStringBecomesEmpty (TOpt TStr) L_seg true (Some JNull) /\
-  fails IntegerInFloatFieldRounded TF64 L_seg true (Some (JU64 9007199254740993)) /\
-  fails FloatWalReparsedInexact TF64 L_wal true (Some (JF64 4646557125919078934)).
+  fails IntegerInFloatFieldRounded TF64 L_seg true (Some (JU64 9007199254740993)).
 Proof. repeat split; vm_compute; reflexivity. Qed.
+
+(** retired witness (fixed in 32b7370): 446.19296929045356 now survives the WAL; without the feature the
+    legacy reader still changes its last bit *)
+Example wal_float_former_witness :
+  returned TF64 L_wal true (Some (JF64 4646557125919078934)) = JF64 4646557125919078934 /\
+  wal_float_legacy 4646557125919078934 = SFloat 4646557125919078935.
+Proof. split; vm_compute; reflexivity. Qed.
 
 (** further witnesses of the re-typing class: " 7 ", "true", "1e3", NBSP "7", "null", and an enum
     variant "12"; the optional string whose key is absent; the compacted tier *)
@@ -400,19 +411,6 @@ Lemma compat_inv_var : forall p s, compat p (JStr s) = true -> p = PVar.
 Proof. intros [] s H; cbn in H; try discriminate; reflexivity. Qed.
 Lemma compat_inv_f64 : forall p b, compat p (JF64 b) = true -> p = PF64.
 Proof. intros [] b H; cbn in H; try discriminate; reflexivity. Qed.
-
-Lemma wal_float_shape : forall b, (exists r, wal_float b = SFloat r) \/ wal_float b = SNull.
-Proof.
-  intros b. unfold wal_float. destruct (negb (f64_is_finite b)); [right; reflexivity|].
-  destruct (f64_mag b =? 0); [left; eexists; reflexivity|].
-  destruct (ryu_parts (f64_mag b)) as [sg e]. destruct (f64_from_parts (f64_neg b) sg e); [left; eexists; reflexivity|right; reflexivity].
-Qed.
-
-Lemma json_f64_cell_neq : forall r b, r <> b ->
-  json_eqb (json_of_scalar (f64_cell_scalar r)) (JF64 b) = false.
-Proof.
-  intros r b Hn. unfold f64_cell_scalar. destruct (f64_is_finite r) eqn:E; cbn [json_of_scalar]; [rewrite E|]; cbn [json_eqb]; [lia|reflexivity].
-Qed.
 
 Theorem known_classes_fail : forall k t l cp v,
   definable t = true -> conforming t v = true -> col_consistent cp v = true ->
@@ -468,26 +466,6 @@ Proof.
       rewrite rt_f64_int by (unfold i64_min in *; lia).
       unfold int_inexact_as_f64 in Hk. apply negb_true_iff in Hk.
       unfold f64_cell_scalar. destruct (f64_is_finite (f64_of_int z)) eqn:E; cbn [json_of_scalar]; [rewrite E|]; cbn [json_eqb]; [exact Hk|reflexivity].
-  - (* float re-read from the WAL *)
-    cbn [via_wal] in Hk. destruct w; [|discriminate]. cbn [andb] in Hk.
-    destruct v as [[| | | | b | | |]|]; try discriminate.
-    cbn [conforming] in Hc. apply andb_true_iff in Hc. destruct Hc as [Ha Hwf].
-    pose proof (conforming_compat t (JF64 b) Hd Ha ltac:(discriminate)) as Hcm. apply compat_inv_f64 in Hcm.
-    cbn [col_consistent] in Hcp. subst cp. cbn [expected].
-    unfold float_wal_inexact in Hk. apply negb_true_iff in Hk.
-    assert (Hne : forall r, wal_float b = SFloat r -> r <> b).
-    { intros r E Er. subst r. rewrite E in Hk. cbn [scalar_eqb] in Hk. lia. }
-    unfold returned. destruct seg as [n|].
-    + rewrite tier_scalar_seg, Hcm. cbn [mem_scalar scalar_of_json wal_scalar].
-      destruct (wal_float_shape b) as [[r E]|E]; rewrite E.
-      * rewrite rt_f64_float. apply json_f64_cell_neq, Hne, E.
-      * rewrite rt_null by discriminate. reflexivity.
-    + unfold tier_scalar. cbn [via_wal in_seg mem_scalar scalar_of_json wal_scalar].
-      destruct (wal_float_shape b) as [[r E]|E]; rewrite E.
-      * fold (f64_cell_scalar r). cbn [json_of_scalar]. fold (f64_cell_scalar r).
-        change (if f64_is_finite r then JF64 r else JNull) with (json_of_scalar (SFloat r)).
-        specialize (Hne r E). cbn [json_of_scalar]. destruct (f64_is_finite r); cbn [json_eqb]; [lia|reflexivity].
-      * reflexivity.
 Qed.
 
 (** * tiers agree: the normal form of a returned cell outside the tier-dependent classes *)
@@ -506,7 +484,15 @@ Qed.
 
 Definition tier_known (t : ftype) (l : layout) (cp : bool) (v : stored) : bool :=
   in_class StringRetyped t l cp v || in_class NullStringBecomesEmpty t l cp v ||
-  in_class IntegerInFloatFieldRounded t l cp v || in_class FloatWalReparsedInexact t l cp v.
+  in_class IntegerInFloatFieldRounded t l cp v.
+
+Lemma tier_known_false : forall t l cp v, tier_known t l cp v = false ->
+  in_class StringRetyped t l cp v = false /\ in_class NullStringBecomesEmpty t l cp v = false /\
+  in_class IntegerInFloatFieldRounded t l cp v = false.
+Proof.
+  intros t l cp v H. unfold tier_known in H. apply orb_false_iff in H. destruct H as [H H3].
+  apply orb_false_iff in H. destruct H as [H1 H2]. auto.
+Qed.
 
 Definition seg_f64 (t : ftype) (l : layout) : bool :=
   match in_seg l, phys_of t with Some _, PF64 => true | _, _ => false end.
@@ -526,8 +512,7 @@ Lemma returned_nf : forall t w seg j,
 Proof.
   intros t w seg j Hd Ha Hwf Hn l Hk.
   pose proof (conforming_compat t j Hd Ha Hn) as Hc.
-  unfold tier_known in Hk. repeat (apply orb_false_iff in Hk; destruct Hk as [Hk ?]).
-  rename Hk into K2. rename H1 into K3. rename H0 into K4. rename H into K5.
+  destruct (tier_known_false _ _ _ _ Hk) as (K2 & K3 & K4).
   unfold returned, nf, seg_f64. subst l. cbn [in_seg].
   destruct (phys_of t) eqn:Hp; destruct j; cbn [compat] in Hc; try discriminate.
   - (* var-bytes / string *)
@@ -609,8 +594,7 @@ Proof.
   - (* F64 column, float value *)
     cbn [wf_json] in Hwf. assert (Hf : f64_is_finite bits = true) by lia.
     assert (Ew : (if w then wal_scalar (SFloat bits) else SFloat bits) = SFloat bits).
-    { destruct w; [|reflexivity]. cbn [in_class via_wal andb] in K5. unfold float_wal_inexact in K5.
-      apply negb_false_iff, scalar_eqb_eq in K5. exact K5. }
+    { destruct w; [|reflexivity]. cbn [wal_scalar]. apply wal_float_exact, Hf. }
     destruct seg as [k|].
     + rewrite tier_scalar_seg, Hp. cbn [mem_scalar scalar_of_json]. rewrite Ew, rt_f64_float.
       unfold f64_cell_scalar. rewrite Hf. cbn [json_of_scalar]. rewrite Hf. reflexivity.
@@ -655,8 +639,7 @@ Proof.
   intros t l1 l2 cp1 cp2 v Hd Hc H1 H2 K1 K2.
   assert (Hnull : v = Some JNull \/ v = None ->
                   json_eqb (returned t l1 cp1 v) (returned t l2 cp2 v) = true).
-  { intros Hv. unfold tier_known in K1, K2.
-    repeat (apply orb_false_iff in K1; destruct K1 as [K1 ?]). repeat (apply orb_false_iff in K2; destruct K2 as [K2 ?]).
+  { intros Hv. destruct (tier_known_false _ _ _ _ K1) as (_ & N1 & _). destruct (tier_known_false _ _ _ _ K2) as (_ & N2 & _).
     rewrite !returned_null by assumption. reflexivity. }
   destruct v as [j|]; [|apply Hnull; right; reflexivity].
   destruct (json_eqb j JNull) eqn:En.
@@ -669,11 +652,11 @@ Proof.
   unfold nf, seg_f64. cbn [in_seg].
   (* the integer-in-float-field facts of the segment layouts *)
   assert (I1 : forall n z, s1 = Some n -> phys_of t = PF64 -> (j = JU64 z \/ j = JI64 z) -> float_is_int (f64_of_int z) z = true).
-  { intros n z -> Hp Hj. unfold tier_known in K1. repeat (apply orb_false_iff in K1; destruct K1 as [K1 ?]).
+  { intros n z -> Hp Hj. destruct (tier_known_false _ _ _ _ K1) as (_ & _ & H0).
     cbn [in_class in_memory in_seg negb andb] in H0. rewrite Hp in H0.
     destruct Hj as [-> | ->]; unfold int_inexact_as_f64 in H0; apply negb_false_iff in H0; exact H0. }
   assert (I2 : forall n z, s2 = Some n -> phys_of t = PF64 -> (j = JU64 z \/ j = JI64 z) -> float_is_int (f64_of_int z) z = true).
-  { intros n z -> Hp Hj. unfold tier_known in K2. repeat (apply orb_false_iff in K2; destruct K2 as [K2 ?]).
+  { intros n z -> Hp Hj. destruct (tier_known_false _ _ _ _ K2) as (_ & _ & H0).
     cbn [in_class in_memory in_seg negb andb] in H0. rewrite Hp in H0.
     destruct Hj as [-> | ->]; unfold int_inexact_as_f64 in H0; apply negb_false_iff in H0; exact H0. }
   destruct j; try apply json_eqb_refl.
@@ -687,8 +670,7 @@ Qed.
 Theorem tiers_agree_refuted :
   json_eqb (returned TStr L_mem true (Some (JStr [49; 50; 51]%N))) (returned TStr L_seg true (Some (JStr [49; 50; 51]%N))) = false /\
   json_eqb (returned (TOpt TStr) L_mem true (Some JNull)) (returned (TOpt TStr) L_seg true (Some JNull)) = false /\
-  json_eqb (returned TF64 L_mem true (Some (JU64 9007199254740993))) (returned TF64 L_seg true (Some (JU64 9007199254740993))) = false /\
-  json_eqb (returned TF64 L_mem true (Some (JF64 4646557125919078934))) (returned TF64 L_wal true (Some (JF64 4646557125919078934))) = false.
+  json_eqb (returned TF64 L_mem true (Some (JU64 9007199254740993))) (returned TF64 L_seg true (Some (JU64 9007199254740993))) = false.
 Proof. repeat split; vm_compute; reflexivity. Qed.
 
 (** * a zone column is read back cell by cell *)
@@ -807,7 +789,7 @@ Definition L_all : list layout :=
 Definition sample_inputs : list (ftype * stored) :=
   [(TU64, Some (JU64 18446744073709551615)); (TOpt TU64, Some (JU64 9223372036854775808));
    (TI64, Some (JI64 (-9223372036854775808))); (TI64, Some (JU64 9223372036854775807));
-   (TF64, Some (JF64 4609434218613702656)); (TF64, Some (JU64 3)); (TF64, Some (JI64 (-9007199254740992)));
+   (TF64, Some (JF64 4609434218613702656)); (TF64, Some (JF64 4646557125919078934)); (TF64, Some (JF64 4845873199050653695)); (TF64, Some (JU64 3)); (TF64, Some (JI64 (-9007199254740992)));
    (TStr, Some (JStr [104; 195; 169; 108; 108; 111; 32; 119; 195; 182; 114; 108; 100]%N));
    (TStr, Some (JStr [78; 97; 78]%N)); (TStr, Some (JStr []));
    (TEnum [[97; 97]%N; [98]%N], Some (JStr [97; 97]%N));
@@ -930,4 +912,24 @@ Corollary read_cell_sink_agrees : forall c, read_cell_sink c = read_cell c.
 Proof.
   intros [s | o | o | o | o]; try reflexivity. cbn [read_cell_sink read_cell].
   destruct (parse_i64 s) as [z|] eqn:E; [|reflexivity]. symmetry. apply sink_agrees, E.
+Qed.
+
+(** * after the fix round: the WAL line is exact for every payload scalar (fix 32b7370) *)
+Theorem wal_exact : forall s,
+  (forall b, s = SFloat b -> f64_is_finite b = true) -> wal_scalar s = s.
+Proof.
+  intros [| b | z | b | t] H; try reflexivity. cbn [wal_scalar]. apply wal_float_exact, H. reflexivity.
+Qed.
+
+(** hence a WAL-recovering restart never changes what a layout returns *)
+Corollary restart_invisible : forall t seg cp v,
+  conforming t v = true ->
+  returned t {| via_wal := true; in_seg := seg |} cp v = returned t {| via_wal := false; in_seg := seg |} cp v.
+Proof.
+  intros t seg cp v Hc. unfold returned, tier_scalar. cbn [via_wal in_seg].
+  rewrite wal_exact; [reflexivity|].
+  intros b Hb. destruct v as [j|]; [|discriminate]. cbn [conforming] in Hc. apply andb_true_iff in Hc. destruct Hc as [_ Hwf].
+  destruct j; cbn [mem_scalar scalar_of_json] in Hb; try discriminate.
+  - destruct (n <=? i64_max); discriminate.
+  - inversion Hb. subst. cbn [wf_json] in Hwf. lia.
 Qed.
